@@ -25,39 +25,7 @@ Qed.
 Lemma dec_ns sep n : 0 <= n -> sep <? 48 = true \/ 57 <? sep = true -> no_sep sep (dec n) = true.
 Proof. intros Hn Hs. apply decimal_nosep; [exact Hs|apply dec_decimal, Hn]. Qed.
 
-(* ---------- no slash in address texts ---------- *)
-Lemma v4text_noslash b0 b1 b2 b3 : 0 <= b0 -> 0 <= b1 -> 0 <= b2 -> 0 <= b3 -> ns47 (v4text b0 b1 b2 b3) = true.
-Proof.
-  intros. unfold v4text.
-  repeat (apply no_sep_app; [apply dec_ns; [assumption|left; reflexivity]|];
-          change (ns47 (46 :: ?x)) with (ns47 ([46] ++ x)); apply no_sep_app; [reflexivity|]).
-  apply dec_ns; [assumption|left; reflexivity].
-Qed.
-
-Lemma ipv4_ntoa_noslash a t : all_bytes a = true -> ipv4_ntoa a = Ok t -> ns47 t = true.
-Proof.
-  intros Hb. destruct a as [|a0 [|a1 [|a2 [|a3 [|? ?]]]]]; cbn [ipv4_ntoa]; try discriminate.
-  cbn [all_bytes forallb] in Hb. repeat (apply andb_true_iff in Hb as [? Hb]).
-  repeat match goal with H : is_byte _ = true |- _ => apply is_byte_range in H end.
-  intros E. inversion E. apply (v4text_noslash a0 a1 a2 a3); lia.
-Qed.
-
-Lemma chunk_noslash_all : forallb (fun v => ns47 (chunk_of v)) (zrange 65536 0) = true.
-Proof. vm_compute. reflexivity. Qed.
-
-Lemma chunk_noslash v : 0 <= v < 65536 -> ns47 (chunk_of v) = true.
-Proof.
-  intros Hv. pose proof chunk_noslash_all as G. rewrite forallb_forall in G. apply G. apply zrange_in.
-  assert (E : Z.of_nat 65536 = 65536) by (vm_compute; reflexivity). rewrite E. lia.
-Qed.
-
-Lemma join_noslash vs : Forall (fun v => 0 <= v < 65536) vs -> ns47 (join_colon (map chunk_of vs)) = true.
-Proof.
-  induction 1 as [|v vs Hv H IH]; [reflexivity|]. destruct vs as [|v2 vs]; [cbn [map join_colon]; apply chunk_noslash, Hv|].
-  change (join_colon (map chunk_of (v :: v2 :: vs))) with (chunk_of v ++ [58] ++ join_colon (map chunk_of (v2 :: vs))).
-  apply no_sep_app; [apply chunk_noslash, Hv|]. apply no_sep_app; [reflexivity|exact IH].
-Qed.
-
+(* ---------- address texts contain no separator character below "0" other than "." ---------- *)
 Lemma firstn_map {A B} (f : A -> B) n l : firstn n (map f l) = map f (firstn n l).
 Proof. revert l. induction n; intros [|x l]; cbn; try reflexivity. f_equal. apply IHn. Qed.
 Lemma skipn_map {A B} (f : A -> B) n l : skipn n (map f l) = map f (skipn n l).
@@ -67,23 +35,78 @@ Proof. intros H. apply Forall_forall. intros x Hx. rewrite Forall_forall in H. a
 Lemma Forall_skipn {A} (P : A -> Prop) n l : Forall P l -> Forall P (skipn n l).
 Proof. intros H. apply Forall_forall. intros x Hx. rewrite Forall_forall in H. apply H. eapply in_skipn_in; eauto. Qed.
 
-Theorem ipv6_ntoa_noslash a t : all_bytes a = true -> ipv6_ntoa a = Ok t -> ns47 t = true.
-Proof.
-  intros Hb. unfold ipv6_ntoa. destruct (Nat.eqb (length a) 16) eqn:EL; cbn [negb]; [|discriminate].
-  pose proof (pairs16_range a Hb) as HR.
-  change (map (fun v => strip0 (hex4 v)) (pairs16 a)) with (map chunk_of (pairs16 a)).
-  destruct (zrun (map chunk_of (pairs16 a))) as [bs bl].
-  destruct (bl >? 1).
-  - destruct ((bs =? 0) && ((bl =? 6) || (bl =? 5) && zlist_eqb (nth 5 (map chunk_of (pairs16 a)) []) [102; 102; 102; 102])).
-    + destruct (ipv4_ntoa (skipn 12 a)) as [v4| |] eqn:E4; cbn [bind]; try discriminate.
-      assert (Hs : all_bytes (skipn 12 a) = true).
-      { unfold all_bytes in *. rewrite forallb_forall in *. intros x Hx. apply Hb. eapply in_skipn_in; eauto. }
-      intros E. inversion E. apply no_sep_app; [destruct (bl =? 6); reflexivity|apply (ipv4_ntoa_noslash _ _ Hs E4)].
-    + intros E. inversion E. rewrite firstn_map, skipn_map.
-      apply no_sep_app; [apply join_noslash, Forall_firstn, HR|].
-      change (58 :: 58 :: ?x) with ([58; 58] ++ x). apply no_sep_app; [reflexivity|apply join_noslash, Forall_skipn, HR].
-  - intros E. inversion E. apply join_noslash, HR.
-Qed.
+Section NoSep.
+  Variable sep : Z.
+  Hypothesis Hlow : sep <? 48 = true.
+  Hypothesis Hdot : (46 =? sep) = false.
+  Hypothesis Hchunks : forallb (fun v => no_sep sep (chunk_of v)) (zrange 65536 0) = true.
+  Notation ns := (no_sep sep).
+
+  Lemma ns_single c : (c =? sep) = false -> ns [c] = true.
+  Proof. intros H. unfold no_sep. cbn [forallb]. rewrite H. reflexivity. Qed.
+
+  Lemma v4text_nosep b0 b1 b2 b3 : 0 <= b0 -> 0 <= b1 -> 0 <= b2 -> 0 <= b3 -> ns (v4text b0 b1 b2 b3) = true.
+  Proof.
+    intros. unfold v4text.
+    repeat (apply no_sep_app; [apply dec_ns; [assumption|left; exact Hlow]|];
+            change (ns (46 :: ?x)) with (ns ([46] ++ x)); apply no_sep_app; [apply ns_single, Hdot|]).
+    apply dec_ns; [assumption|left; exact Hlow].
+  Qed.
+
+  Lemma ipv4_ntoa_nosep a t : all_bytes a = true -> ipv4_ntoa a = Ok t -> ns t = true.
+  Proof.
+    intros Hb. destruct a as [|a0 [|a1 [|a2 [|a3 [|? ?]]]]]; cbn [ipv4_ntoa]; try discriminate.
+    cbn [all_bytes forallb] in Hb. repeat (apply andb_true_iff in Hb as [? Hb]).
+    repeat match goal with H : is_byte _ = true |- _ => apply is_byte_range in H end.
+    intros E. inversion E. apply (v4text_nosep a0 a1 a2 a3); lia.
+  Qed.
+
+  Lemma chunk_nosep v : 0 <= v < 65536 -> ns (chunk_of v) = true.
+  Proof.
+    intros Hv. pose proof Hchunks as G. rewrite forallb_forall in G. apply G. apply zrange_in.
+    assert (E : Z.of_nat 65536 = 65536) by (vm_compute; reflexivity). rewrite E. lia.
+  Qed.
+
+  Lemma colon_ns : ns [58] = true /\ ns [58; 58] = true.
+  Proof. assert ((58 =? sep) = false) by lia. unfold no_sep. cbn [forallb]. rewrite H. split; reflexivity. Qed.
+
+  Lemma join_nosep vs : Forall (fun v => 0 <= v < 65536) vs -> ns (join_colon (map chunk_of vs)) = true.
+  Proof.
+    induction 1 as [|v vs Hv H IH]; [reflexivity|]. destruct vs as [|v2 vs]; [cbn [map join_colon]; apply chunk_nosep, Hv|].
+    change (join_colon (map chunk_of (v :: v2 :: vs))) with (chunk_of v ++ [58] ++ join_colon (map chunk_of (v2 :: vs))).
+    apply no_sep_app; [apply chunk_nosep, Hv|]. apply no_sep_app; [apply colon_ns|exact IH].
+  Qed.
+
+  Theorem ipv6_ntoa_nosep a t : all_bytes a = true -> ipv6_ntoa a = Ok t -> ns t = true.
+  Proof.
+    intros Hb. unfold ipv6_ntoa. destruct (Nat.eqb (length a) 16) eqn:EL; cbn [negb]; [|discriminate].
+    pose proof (pairs16_range a Hb) as HR.
+    change (map (fun v => strip0 (hex4 v)) (pairs16 a)) with (map chunk_of (pairs16 a)).
+    destruct (zrun (map chunk_of (pairs16 a))) as [bs bl].
+    destruct (bl >? 1).
+    - destruct ((bs =? 0) && ((bl =? 6) || (bl =? 5) && zlist_eqb (nth 5 (map chunk_of (pairs16 a)) []) [102; 102; 102; 102])).
+      + destruct (ipv4_ntoa (skipn 12 a)) as [v4| |] eqn:E4; cbn [bind]; try discriminate.
+        assert (Hs : all_bytes (skipn 12 a) = true).
+        { unfold all_bytes in *. rewrite forallb_forall in *. intros x Hx. apply Hb. eapply in_skipn_in; eauto. }
+        intros E. inversion E. apply no_sep_app; [|apply (ipv4_ntoa_nosep _ _ Hs E4)].
+        assert (E58 : (58 =? sep) = false) by lia. assert (E102 : (102 =? sep) = false) by lia.
+        destruct (bl =? 6); unfold no_sep; cbn [forallb]; rewrite ?E58, ?E102; reflexivity.
+      + intros E. inversion E. rewrite firstn_map, skipn_map.
+        apply no_sep_app; [apply join_nosep, Forall_firstn, HR|].
+        change (58 :: 58 :: ?x) with ([58; 58] ++ x). apply no_sep_app; [apply colon_ns|apply join_nosep, Forall_skipn, HR].
+    - intros E. inversion E. apply join_nosep, HR.
+  Qed.
+End NoSep.
+
+Lemma chunk_noslash_all : forallb (fun v => no_sep 47 (chunk_of v)) (zrange 65536 0) = true.
+Proof. vm_compute. reflexivity. Qed.
+Lemma chunk_nocomma_all : forallb (fun v => no_sep 44 (chunk_of v)) (zrange 65536 0) = true.
+Proof. vm_compute. reflexivity. Qed.
+
+Definition ipv4_ntoa_noslash := ipv4_ntoa_nosep 47 eq_refl eq_refl.
+Definition ipv6_ntoa_noslash := ipv6_ntoa_nosep 47 eq_refl eq_refl chunk_noslash_all.
+Definition ipv4_ntoa_nocomma := ipv4_ntoa_nosep 44 eq_refl eq_refl.
+Definition ipv6_ntoa_nocomma := ipv6_ntoa_nosep 44 eq_refl eq_refl chunk_nocomma_all.
 
 (* ---------- the hex text of an unknown family ---------- *)
 Lemma hexval_hexdigit c v : hexval c = Some v -> is_hexdigit c = true.
